@@ -2518,7 +2518,13 @@ def convert_ops_to_lut(op: Operation, arch, nng) -> Operation:
 
     """Convert Exp to 8bit or 16bit LUT to allow for support on NPU."""
     if op.type == Op.Exp:
-        func = math.exp
+        def exp(value):
+            # math.exp raises OverflowError where the reference's std::exp returns inf; the table entry saturates
+            try:
+                return math.exp(value)
+            except OverflowError:
+                return math.inf
+        func = exp
         name = "exp"
     elif op.type == Op.Log:
         def log(value):
